@@ -75,4 +75,35 @@ def tab3Set (t : Tab3) (i j : Int) (c : Int × Int × Int) : M Tab3 := do
   if j' < 0 ∨ j' ≥ row.length then throw .indexError
   pure (t.set i'.toNat (row.set j'.toNat c))
 
+/-- `Operation.index` of hrevolve_sequences: a pair (`[n0, n1]`, `[level, n]`) or a plain integer -/
+inductive PyIdx
+  | pair (a b : Int)
+  | single (a : Int)
+deriving DecidableEq, Repr, Inhabited
+
+/-- `Operation(type, index)` as the schedule iterator sees it (`.type`, `.index`) -/
+structure PyOp where
+  type : String
+  index : PyIdx
+deriving DecidableEq, Repr, Inhabited
+
+/-- `a, b = op.index` (`TypeError` when the index is a plain integer) -/
+def idxPair : PyIdx → M (Int × Int)
+  | .pair a b => pure (a, b)
+  | .single _ => throw .typeError
+
+/-- `n = op.index` used as a number (a pair used as a number: `TypeError`; Python itself fails only later) -/
+def idxSingle : PyIdx → M Int
+  | .single a => pure a
+  | .pair _ _ => throw .typeError
+
+/-- `{k0: v0, k1: v1, …}[k]` -/
+def pyDictGet {α : Type} (d : List (Int × α)) (k : Int) : M α :=
+  match d.find? (fun p => p.1 = k) with
+  | some p => pure p.2
+  | none => throw .keyError
+
+/-- `range(a, b, -1)` -/
+def pyRangeDown (a b : Int) : List Int := (List.range (a - b).toNat).map (fun (k : Nat) => a - (k : Int))
+
 end Ckpt.Py
